@@ -2201,6 +2201,10 @@ class tensor:
                 f"Number of values ({np.size(value)}) does not match "
                 f"number of subscripts ({subs.shape[0]})"
             )
+        # One value per subscript row: a column of values (the form the sparse
+        # class asks for) is as good as a vector
+        if np.size(value) > 1 and np.ndim(value) != 1:
+            value = np.reshape(value, (-1,))
 
         # Will the size change? If so we first need to resize x
         n = self.ndims
